@@ -350,6 +350,8 @@ def select(arr, *idx):
         break
     if a.op == "constarr":
         return a.args[0]
+    if a.op == "ite":
+        return ite(a.args[0], select(a.args[1], *idx), select(a.args[2], *idx))
     return T("select", (a, tuple(idx)), elem)
 
 
@@ -372,6 +374,24 @@ def _distinct(x, y):
         if x.args[0] != y.args[0]:
             return True
         return _distinct(x.args[1], y.args[1])
+    # a freshly allocated object is distinct from `this`, from everything inside it and from other allocations
+    fx, fy = _fresh_alloc(x), _fresh_alloc(y)
+    if fx and fy:
+        return x is not y and _alloc_root(x) is not _alloc_root(y)
+    if fx or fy:
+        other = y if fx else x
+        r = other
+        for _ in range(8):
+            if r.op == "app" and r.args[0].startswith("fld:"):
+                r = r.args[1]
+            elif r.op == "+" and r.sort == "P":
+                r = r.args[0]
+            else:
+                break
+        if r.op == "sym" and r.args[0] == "this":
+            return True
+        if isnum(r):
+            return True
     # p + c1 vs p + c2
     if x.op == "+" and y.op == "+" and x.args[0] is y.args[0]:
         return _distinct(x.args[1], y.args[1])
@@ -380,6 +400,25 @@ def _distinct(x, y):
     if y.op == "+" and y.args[0] is x and isnum(y.args[1]) and y.args[1].args[0] != 0:
         return True
     return False
+
+
+ALLOC_PREFIX = ("new!", "ret_PHRQ_malloc!", "ret_PHRQ_calloc!", "ret_PHRQ_realloc!", "ret_malloc!", "&")
+
+
+def _alloc_root(x):
+    for _ in range(8):
+        if x.op == "app" and x.args[0].startswith("fld:"):
+            x = x.args[1]
+        elif x.op == "+" and x.sort == "P":
+            x = x.args[0]
+        else:
+            break
+    return x
+
+
+def _fresh_alloc(x):
+    r = _alloc_root(x)
+    return r.op == "sym" and r.args[0].startswith(ALLOC_PREFIX)
 
 
 def subterms(t, seen=None):
